@@ -248,6 +248,52 @@ var faults = []fault{
 	{"empty", func(s []byte, bs int) []byte { return []byte{} }},
 }
 
+// Every single pad byte and every PAIR of pad bytes changed by the same mask (a check that folds
+// the differences instead of comparing each byte lets equal differences cancel), and all pad bytes
+// but the last replaced by another legal pad value.
+func init() {
+	at := func(i int) string { return fmt.Sprintf("%d", i) }
+	for i := 2; i <= 16; i++ {
+		i := i
+		for _, m := range []byte{0x01, 0x80} {
+			m := m
+			faults = append(faults, fault{"pad-byte-" + at(i) + "-from-end-xor-" + fmt.Sprintf("%02x", m), func(s []byte, bs int) []byte {
+				n := int(s[len(s)-1])
+				if n < i {
+					return nil
+				}
+				t := append([]byte{}, s...)
+				t[len(t)-i] ^= m
+				return t
+			}})
+			for j := i + 1; j <= 16; j++ {
+				j := j
+				faults = append(faults, fault{"pad-bytes-" + at(i) + "-and-" + at(j) + "-from-end-xor-" + fmt.Sprintf("%02x", m), func(s []byte, bs int) []byte {
+					n := int(s[len(s)-1])
+					if n < j {
+						return nil
+					}
+					t := append([]byte{}, s...)
+					t[len(t)-i] ^= m
+					t[len(t)-j] ^= m
+					return t
+				}})
+			}
+		}
+	}
+	faults = append(faults, fault{"pad-bytes-all-but-last-another-legal-value", func(s []byte, bs int) []byte {
+		n := int(s[len(s)-1])
+		if n < 3 {
+			return nil
+		}
+		t := append([]byte{}, s...)
+		for k := 2; k <= n; k++ {
+			t[len(t)-k] = byte(n%bs + 1)
+		}
+		return t
+	}})
+}
+
 func writerUnit(bs, lo, hi, maxDev int) harness.Unit {
 	return harness.Unit{Name: fmt.Sprintf("writer/bs%d/L=%d..%d/dev<=%d", bs, lo, hi, maxDev), Run: func(c *harness.Ctx) {
 		menu := chunkMenu(bs)
